@@ -381,7 +381,7 @@ func (e *Exec) loopHeader(fr *Frame, h *ssa.BasicBlock, st *State, fwd []edge, b
 		e.emit("(assert (<= %s %s))", oldA.S, na.S)
 		st.heap["$alloc"] = na
 	}
-	li := e.loopInvariants(fr, h, phis, initVals, body, c)
+	li := e.loopInvariants(fr, h, phis, initVals, body, c, pre, ms)
 	if fr.loops == nil {
 		fr.loops = map[*ssa.BasicBlock]*loopInfo{}
 	}
@@ -444,7 +444,7 @@ func loopKey(h *ssa.BasicBlock) string {
 
 // loopInvariants proposes automatic (Houdini) candidates and adds the
 // contract's invariants.
-func (e *Exec) loopInvariants(fr *Frame, h *ssa.BasicBlock, phis []*ssa.Phi, initVals map[*ssa.Phi]Value, body map[*ssa.BasicBlock]bool, c *Contract) *loopInfo {
+func (e *Exec) loopInvariants(fr *Frame, h *ssa.BasicBlock, phis []*ssa.Phi, initVals map[*ssa.Phi]Value, body map[*ssa.BasicBlock]bool, c *Contract, pre *State, ms *ModSet) *loopInfo {
 	li := &loopInfo{header: h, key: loopKey(h)}
 	fr.loopN++
 	add := func(name string, cand bool, ev func(map[*ssa.Phi]Value, *State) *Term) {
@@ -515,7 +515,7 @@ func (e *Exec) loopInvariants(fr *Frame, h *ssa.BasicBlock, phis []*ssa.Phi, ini
 			}
 		}
 	}
-	// slice-typed phis: well-formedness is kept by havocValue; len relation candidates
+	e.frameCandidates(fr, h, phis, initVals, body, pre, ms, add)
 	e.contractLoopInvs(fr, h, li, phis, c, add)
 	return li
 }
@@ -592,4 +592,176 @@ func (e *Exec) invTerm(fr *Frame, st *State, v ssa.Value) *Term {
 		}
 	}
 	return e.asTerm(st, e.val(fr, v), v.Type())
+}
+
+// pureEval evaluates a side-effect-free SSA value in a given state even if
+// its defining instruction (inside a loop) has not been executed: loads of
+// fields that the loop does not modify, len/cap, arithmetic.
+func (e *Exec) pureEval(fr *Frame, st *State, v ssa.Value, body map[*ssa.BasicBlock]bool, ms *ModSet, depth int) (Value, bool) {
+	in, isInstr := v.(ssa.Instruction)
+	if !isInstr || !body[in.Block()] {
+		return e.val(fr, v), true
+	}
+	if depth > 6 {
+		return nil, false
+	}
+	switch x := v.(type) {
+	case *ssa.FieldAddr:
+		base, ok := e.pureEval(fr, st, x.X, body, ms, depth+1)
+		if !ok {
+			return nil, false
+		}
+		stt := derefStruct(x.X.Type())
+		if stt == nil {
+			return nil, false
+		}
+		ft := stt.s.Field(x.Field).Type()
+		_, fieldIsStruct := ft.Underlying().(*types.Struct)
+		switch bv := base.(type) {
+		case *Term:
+			if fieldIsStruct {
+				return e.embRef(stt.name, x.Field, bv), true
+			}
+			return &Loc{Kind: LField, Comp: fieldComp(stt.name, x.Field), Ref: bv, Type: ft}, true
+		case *Loc:
+			if bv.Kind == LLocal {
+				return &Loc{Kind: LLocal, Key: fmt.Sprintf("%s.%d", bv.Key, x.Field), Type: ft}, true
+			}
+		}
+		return nil, false
+	case *ssa.UnOp:
+		if x.Op != token.MUL {
+			return nil, false
+		}
+		addr, ok := e.pureEval(fr, st, x.X, body, ms, depth+1)
+		if !ok {
+			return nil, false
+		}
+		loc, ok := addr.(*Loc)
+		if !ok {
+			return nil, false
+		}
+		if loc.Kind == LField && (ms.All || ms.Comps[loc.Comp]) {
+			return nil, false
+		}
+		if loc.Kind == LLocal {
+			return nil, false
+		}
+		if sortOf(x.Type()) == structSort {
+			return nil, false
+		}
+		h := e.heapRead(st, loc.Comp, ArrSort(sortOf(x.Type())))
+		return Select(h, loc.Ref), true
+	case *ssa.Call:
+		if b, ok := x.Call.Value.(*ssa.Builtin); ok && (b.Name() == "len" || b.Name() == "cap") {
+			a, ok := e.pureEval(fr, st, x.Call.Args[0], body, ms, depth+1)
+			if !ok {
+				return nil, false
+			}
+			at, ok := a.(*Term)
+			if !ok {
+				return nil, false
+			}
+			if at.Sort == SSl {
+				if b.Name() == "len" {
+					return App(SInt, "sl-len", at), true
+				}
+				return App(SInt, "sl-cap", at), true
+			}
+			if isString(x.Call.Args[0].Type()) {
+				return App(SInt, "slen", at), true
+			}
+		}
+	}
+	return nil, false
+}
+
+// frameCandidates: for an array component that the loop writes only through
+// X[phi+c] with X fixed, propose "everything outside the written index range
+// is as before the loop" (both directions; Houdini keeps what is inductive).
+func (e *Exec) frameCandidates(fr *Frame, h *ssa.BasicBlock, phis []*ssa.Phi, initVals map[*ssa.Phi]Value, body map[*ssa.BasicBlock]bool, pre *State, ms *ModSet, add func(string, bool, func(map[*ssa.Phi]Value, *State) *Term)) {
+	if ms.All {
+		return
+	}
+	type st1 struct {
+		x   ssa.Value
+		phi *ssa.Phi
+		off int64
+		es  string
+	}
+	stores := map[string][]st1{}
+	bad := map[string]bool{}
+	for b := range body {
+		for _, in := range b.Instrs {
+			switch x := in.(type) {
+			case *ssa.Store:
+				ia, ok := x.Addr.(*ssa.IndexAddr)
+				if !ok {
+					if c := e.P.compForAddr(x.Addr); strings.HasPrefix(c, "A_") {
+						bad[c] = true
+					}
+					continue
+				}
+				sl, ok := ia.X.Type().Underlying().(*types.Slice)
+				if !ok {
+					continue
+				}
+				es := sortOf(sl.Elem())
+				comp := "A_" + sortKey(es)
+				found := false
+				for _, phi := range phis {
+					if base, off, ok := phiPlusConst(ia.Index, phi); ok && base {
+						stores[comp] = append(stores[comp], st1{ia.X, phi, off, es})
+						found = true
+						break
+					}
+				}
+				if !found {
+					bad[comp] = true
+				}
+			case *ssa.Call:
+				m := &ModSet{Comps: map[string]bool{}}
+				e.P.instrMods(in, m)
+				for c := range m.Comps {
+					if strings.HasPrefix(c, "A_") {
+						bad[c] = true
+					}
+				}
+			}
+		}
+	}
+	for comp, list := range stores {
+		if bad[comp] || len(list) != 1 {
+			continue
+		}
+		s0 := list[0]
+		init, ok := initVals[s0.phi].(*Term)
+		if !ok {
+			continue
+		}
+		comp := comp
+		mk := func(up bool) func(map[*ssa.Phi]Value, *State) *Term {
+			return func(v map[*ssa.Phi]Value, st *State) *Term {
+				xv, ok := e.pureEval(fr, st, s0.x, body, ms, 0)
+				xt, isT := xv.(*Term)
+				if !ok || !isT {
+					return False
+				}
+				H := e.heapRead(st, comp, ArrSort(ArrSort(s0.es)))
+				Hp := e.heapRead(pre, comp, ArrSort(ArrSort(s0.es)))
+				id := App(SInt, "sl-id", xt)
+				bound := Add(App(SInt, "sl-off", xt), Add(init, IntLit(s0.off)))
+				rel := "<"
+				if !up {
+					rel = ">"
+				}
+				q := fmt.Sprintf("(forall ((j!f Int)) (! (=> (%s j!f %s) (= (select (select %s %s) j!f) (select (select %s %s) j!f))) :pattern ((select (select %s %s) j!f))))",
+					rel, bound.S, H.S, id.S, Hp.S, id.S, H.S, id.S)
+				other := fmt.Sprintf("(= %s (store %s %s (select %s %s)))", H.S, Hp.S, id.S, H.S, id.S)
+				return &Term{"(and " + other + " " + q + ")", SBool}
+			}
+		}
+		add("frame-up:"+comp, true, mk(true))
+		add("frame-down:"+comp, true, mk(false))
+	}
 }
